@@ -199,13 +199,25 @@ func (rn *runner) runSchedule(sc schedule, worker int) {
 		c.Inconclusive("warm-up-never-acknowledged", 1)
 		return
 	}
+	// every series was acknowledged once; a new series may take a moment to become visible
+	// (series index), but not two minutes
 	deadline := time.Now().Add(120 * time.Second)
+	lastSeen := -1
 	for {
 		res, err := cl.Front.Query(db, "SELECT fi FROM m GROUP BY *", nil)
-		if err == nil && len(res.Results) == 1 && len(res.Results[0].Series) == nW*nSeries+1 {
-			break
+		if err == nil && len(res.Results) == 1 {
+			lastSeen = len(res.Results[0].Series)
+			if lastSeen == nW*nSeries+1 {
+				break
+			}
 		}
 		if time.Now().After(deadline) {
+			if lastSeen >= 0 {
+				c.Eval(1)
+				c.Violation("acknowledged-points-not-readable-before-any-fault", fmt.Sprintf("schedule %d: %d series were written and acknowledged (HTTP 204) once each, no fault was injected; 120 s later a successful read still returns only %d series", sc.Index, nW*nSeries+1, lastSeen),
+					map[string]any{"schedule": sc, "ops": rec.ops})
+				return
+			}
 			c.Inconclusive("series-never-established", 1)
 			return
 		}
